@@ -358,11 +358,6 @@ func runC06(rc *RunCtx) {
 		if gotRst && (!gotFin || rstRecv < finRecv) {
 			endAt, ended = rstRecv, true
 		}
-		recs := srv.M.tcpFor(p.c.Rec.ID)
-		var r *TCPRec
-		if len(recs) == 1 {
-			r = recs[0]
-		}
 		cls := p.class
 		if !p.auth {
 			rc.Probe("unauth:" + cls)
@@ -404,19 +399,6 @@ func runC06(rc *RunCtx) {
 					when = "the client's FIN"
 				}
 				rc.Failf("probe-close-time:"+cls, "probe %d (%s): server closed at %v, expected %v (%s; connect at %v, timeout %v, injected clock skew %v)", p.k, p.desc, endAt, want, when, p.connectAt, srv.Timeout, skew)
-			}
-			if r == nil {
-				rc.Failf("probe-metrics-missing", "probe %d: %d open reports", p.k, len(recs))
-				continue
-			}
-			if r.first("auth") != nil && p.replayOf < 0 {
-				rc.Failf("probe-authenticated:"+cls, "probe %d (%s) was reported authenticated", p.k, p.desc)
-			}
-			pr := r.first("probe")
-			if pr == nil || r.count("probe") != 1 {
-				rc.Failf("probe-report-count:"+cls, "probe %d (%s): %d probe reports", p.k, p.desc, r.count("probe"))
-			} else if pr.N != srvEnd.NRead {
-				rc.Failf("probe-report-bytes:"+cls, "probe %d (%s): probe report says %d bytes, server received %d", p.k, p.desc, pr.N, srvEnd.NRead)
 			}
 			continue
 		}
